@@ -65,6 +65,8 @@ fn oracle(out: &str) {
     let mut bare_ok_x = vec![];
     let mut bs_ok = vec![];
     let mut bs_ok_x = vec![];
+    let mut uesc_ok = vec![];
+    let mut uesc_ok_x = vec![];
     for cp in 0..=0x10FFFFu32 {
         let c = match char::from_u32(cp) {
             Some(c) => c,
@@ -118,6 +120,13 @@ fn oracle(out: &str) {
         if parses_to_literal("(?x)", &bs, c) {
             bs_ok_x.push(cp);
         }
+        let ue = format!("\\u{{{:x}}}", cp);
+        if parses_to_literal("", &ue, c) {
+            uesc_ok.push(cp);
+        }
+        if parses_to_literal("(?x)", &ue, c) {
+            uesc_ok_x.push(cp);
+        }
     }
     // named escapes the regex crate understands: text -> code point it denotes (if it parses to a literal)
     let mut named = vec![];
@@ -139,6 +148,8 @@ fn oracle(out: &str) {
         "lit_bare_ok_verbose": ranges_json(&to_ranges(&bare_ok_x)),
         "lit_backslash_ok": ranges_json(&to_ranges(&bs_ok)),
         "lit_backslash_ok_verbose": ranges_json(&to_ranges(&bs_ok_x)),
+        "lit_uescape_ok": ranges_json(&to_ranges(&uesc_ok)),
+        "lit_uescape_ok_verbose": ranges_json(&to_ranges(&uesc_ok_x)),
         "named_escapes": named,
         "unicode_version": format!("{:?}", std::char::UNICODE_VERSION),
     });
@@ -337,6 +348,41 @@ fn run_op(op: &Value) -> Value {
                     Some(m) => json!([m.start(), m.end(), text.len()]),
                     None => Value::Null,
                 },
+                Err(e) => json!({"compile_error": e.to_string()}),
+            }
+        }
+        "regex_language" => {
+            // every string over `alphabet` of length <= max_len that the pattern matches IN FULL (replay oracle on a tiny universe)
+            let pat = s_of(&op["pattern"]);
+            let alphabet: Vec<char> = op["alphabet"].as_array().unwrap().iter().map(chr).collect();
+            let max_len = op["max_len"].as_u64().unwrap() as usize;
+            match regex::Regex::new(&pat) {
+                Ok(re) => {
+                    let mut out = vec![];
+                    let mut layer: Vec<String> = vec![String::new()];
+                    for len in 0..=max_len {
+                        for w in layer.iter() {
+                            if let Some(m) = re.find(w) {
+                                if m.start() == 0 && m.end() == w.len() {
+                                    out.push(cps(w));
+                                }
+                            }
+                        }
+                        if len == max_len {
+                            break;
+                        }
+                        let mut next = Vec::with_capacity(layer.len() * alphabet.len());
+                        for w in layer.iter() {
+                            for c in alphabet.iter() {
+                                let mut x = w.clone();
+                                x.push(*c);
+                                next.push(x);
+                            }
+                        }
+                        layer = next;
+                    }
+                    Value::Array(out)
+                }
                 Err(e) => json!({"compile_error": e.to_string()}),
             }
         }
